@@ -157,8 +157,8 @@ func confPrograms() []confProg {
 			vsync.Send(a, 1)
 			vsync.Send(b, 2)
 			c.spawn("sel", func() {
-				i, v, ok := vsync.Select([]vsync.Case{vsync.RecvCase(a), vsync.RecvCase(b)}, false)
-				c.set(0, "case%d=%v,%v", i, v, ok)
+				i, _, ok := vsync.Select([]vsync.Case{vsync.RecvCase(a), vsync.RecvCase(b)}, false) // the rewriter never uses the value
+				c.set(0, "case%d,%v", i, ok)
 			})
 		}},
 		{"select-default", false, func(c *confCtx) {
@@ -168,8 +168,8 @@ func confPrograms() []confProg {
 				c.set(0, "s=%d", i)
 			})
 			c.spawn("r", func() {
-				i, v, _ := vsync.Select([]vsync.Case{vsync.RecvCase(a)}, true)
-				c.set(1, "r=%d:%v", i, v)
+				i, _, _ := vsync.Select([]vsync.Case{vsync.RecvCase(a)}, true)
+				c.set(1, "r=%d", i)
 			})
 		}},
 		{"select-send-or-cancel", false, func(c *confCtx) {
@@ -274,7 +274,7 @@ func shimConformance(c *explore.Check) {
 		c.Gate(bad == "", "shim conformance %s: the model deadlocks/panics where the real program terminates: %s", p.name, bad)
 		c.Gate(len(missing) == 0, "shim conformance %s: real primitives produced outcomes the scheduler model does not allow: %v (model allows %v)", p.name, missing, keysOfInt(model))
 		if p.det {
-			c.Gate(len(model) == 1 && len(real) == 1, "shim conformance %s: deterministic program has %d model / %d real outcomes", p.name, len(model), len(real))
+			c.Gate(len(model) == 1 && len(real) == 1, "shim conformance %s: deterministic program has %d model / %d real outcomes: model %v real %v", p.name, len(model), len(real), keysOfInt(model), keysOfInt(real))
 		} else {
 			c.Gate(len(model) >= 2, "shim conformance %s: the model found only %d outcome(s) for a racy program", p.name, len(model))
 		}
